@@ -5,6 +5,7 @@ package aspec
 import (
 	"encoding/json"
 	"fmt"
+	"net/url"
 	"strings"
 
 	"verif/internal/core"
@@ -377,7 +378,15 @@ func (a ASpec) Document() map[string]any {
 	}
 	doc := map[string]any{"openapi": "3.0.3", "info": info}
 	if a.Base.Form == "servers" {
-		p := a.Base.NF()
+		// (a URL: segments that need it are percent-encoded - "pet store" -> "pet%20store"; the base path is the decoded path)
+		esc := make([]string, len(a.Base.Segs))
+		for i, sg := range a.Base.Segs {
+			esc[i] = url.PathEscape(sg)
+		}
+		p := ""
+		if len(esc) > 0 {
+			p = "/" + strings.Join(esc, "/")
+		}
 		if a.Base.TrailingSlash || (len(a.Base.Segs) == 0) {
 			p += "/"
 		}
